@@ -88,6 +88,7 @@ const canaryText = "CANARY-CONTENT-FROM-THE-REAL-FILE-SYSTEM"
 
 func suiteC11(cfg Config, res *Result) {
 	defer c11UnderscoreNames(res)
+	defer c11RecursiveInclude(res)
 	defer twoBaseDirs(res, "loaders", "c11-two-base-dirs")
 	defer c11IncludeOptions(res)
 	defer c11RealLoaders(res)
